@@ -11,9 +11,13 @@ Every random declaration is built three times:
     changed when all-ones is stored in each bit-field               -> property oracle (ctx.fail),
   * by the Lean driver: `layout` = model of cffi (vs. cffi's cf_offset/cf_bitshift/cf_bitsize),
     `gcc` = the specification (vs. the gcc program)                 -> correspondence (ctx.disagree).
+Besides: out-of-class probes for the error branches of the model (`probes`), and the MSVC / ARM /
+big-endian branches of the loop through `_cffi_backend.complete_struct_or_union(..., sflags, pack)`
+against the all-flags model `Model/LayoutFlags.lean` (`direct`; correspondence only, theorem
+`flags_model_specialises` ties that model to the one the layout theorems are about).
+Failing declarations are re-rooted at the failing aggregate and shrunk member by member (`shrink`).
 """
 import os
-import sys
 
 import common
 from common import InfraError
@@ -23,15 +27,18 @@ MANIFEST = {
             "gives, for every well-formed declaration with any number of fields and any nesting, the same "
             "alignment, member offsets and bit-field bit intervals as a specification of the SysV/GCC layout on a "
             "single bit cursor, and the same size whenever no aggregate involved is empty "
-            "(layout_eq_gcc_partial; the zero-size case is the known finding), that no such declaration is "
-            "rejected (never_rejected) and that every member's storage lies inside the object (unit_inside); "
+            "(layout_eq_gcc_partial, layout_eq_gcc_up_to_empty; the zero-size case is the known finding, "
+            "layout_eq_gcc_fails_on_empty_struct), that no such declaration is rejected (never_rejected), that every "
+            "member's storage lies inside the object and every bit-field inside its unit (unit_inside), and that "
+            "the all-flags model agrees with it for the x86-64 flags (flags_model_specialises); "
             "model and specification are tied to the code and to the compiler by laying out random declarations "
             "in the real backend via ffi.cdef, in the Lean driver, and in C programs compiled by the real gcc.",
     "note": "Trusted: Lean kernel; gcc as the layout oracle (the Lean spec is compared with it, not proved against "
             "it); the harness' generators and C emitter. Modelled only for the flags chosen on x86-64 Linux "
-            "(SF_GCC_X86_BITFIELDS, little endian): MSVC/ARM/big-endian branches, forced offsets ('...' structs) and "
-            "C integer overflow of sizes are not modelled; x & ~(a-1) is modelled as x - x % a (justified for powers "
-            "of two by andnot_eq_alignDown).",
+            "(SF_GCC_X86_BITFIELDS, little endian); the MSVC/ARM/big-endian branches are modelled and compared with the "
+            "backend through complete_struct_or_union(sflags) but have no theorem and no compiler oracle; forced "
+            "offsets ('...' structs) and C integer overflow of sizes are not modelled; x & ~(a-1) is modelled as "
+            "x - x % a (justified for powers of two by andnot_eq_alignDown). Alignments are assumed to be 1,2,4,8,16.",
     "technique": "Lean 4 proof (simulation relation between cffi's (byte,bit) state and a bit cursor, induction over "
                  "the field list and over nesting) + differential correspondence with the real backend and real gcc",
 }
@@ -110,6 +117,7 @@ class Gen(object):
         self.rng, self.prefix = rng, prefix
         self.ntag = self.nfld = 0
         self.allow_zero = False
+        self.bits_any_pack = False       # out-of-class: bit-fields together with packing
 
     def tag(self):
         self.ntag += 1
@@ -150,7 +158,7 @@ class Gen(object):
         out = []
         for _ in range(rng.choice([0, 0, 1, 1, 2])):
             k = rng.random()
-            if k < 0.4 and pack == 0:
+            if k < 0.4 and (pack == 0 or self.bits_any_pack):
                 out.append(Field("", ("prim", rng.choice(INT_TYPES[:10])[0]), bits=0))
             elif k < 0.8 or depth >= 3:
                 out.append(Field(self.fname(), ("prim", rng.choice(PRIMS)), dims=[0]))
@@ -168,12 +176,13 @@ class Gen(object):
             return Agg(kind, tag, pack, packed_kw, style, self.zero_fields(depth, pack))
         nmax = 12 if top else max(1, 7 - depth)
         n = rng.randint(1, nmax)
-        bitty = pack == 0 and rng.random() < 0.6     # this aggregate likes bit-fields
+        bits_ok = pack == 0 or self.bits_any_pack
+        bitty = bits_ok and rng.random() < 0.6     # this aggregate likes bit-fields
         fields = []
         used = 0                                     # rough bit cursor, only to bias widths
         for i in range(n):
             r = rng.random()
-            if pack == 0 and r < (0.55 if bitty else 0.12):
+            if bits_ok and r < (0.55 if bitty else 0.12):
                 tname, tbits = rng.choice(INT_TYPES)
                 k = rng.random()
                 if k < 0.08:
@@ -488,9 +497,26 @@ def cffi_prim_info(ffi):
     return {c: (ffi.sizeof(c), ffi.alignof(c)) for c in PRIMS}, (ffi.sizeof("void *"), ffi.alignof("void *"))
 
 
+def reroot(a, prefix=""):
+    """The aggregate `a` as a declaration of its own (its layout depends on nothing outside it)."""
+    def retag(d):
+        if d["tag"]:
+            d["tag"] = prefix + d["tag"]
+        for f in d["fields"]:
+            if f["base"][0] == "agg":
+                retag(f["base"][1])
+        return d
+    d = retag(a.to_json())
+    d["style"] = "pre"
+    if not d["tag"]:
+        d["tag"] = prefix + "anon_root"
+    return Agg.from_json(d)
+
+
 def case_of(top, a, path, tid):
-    return {"decl": top.to_json(), "target": tid, "type": c_type_expr(path),
-            "chunks": [[t, p] for t, p, _ in chunks_of(top)],
+    root = reroot(a)
+    return {"decl": root.to_json(), "type": "%s %s" % (root.kind, root.tag),
+            "chunks": [[t, p] for t, p, _ in chunks_of(root)],
             "zero_size_agg": any(is_zero_size(x) for x in all_aggs(a))}
 
 
@@ -512,14 +538,14 @@ def spec_members(line):
     return int(w[1]), int(w[2]), mem
 
 
-def run_batch(ctx, tops, name, oracle_only=False):
+def run_batch(ctx, tops, name, oracle_only=False, only_top=False):
     """Lay out every addressable aggregate of every declaration in `tops` with cffi, gcc (and Lean)."""
     import cffi
     cprims, cptr = cffi_prim_info(cffi.FFI())
     items, work = [], []
     for ci, top in enumerate(tops):
         chunks = chunks_of(top)
-        tgts = [("%d.%d" % (ci, k), a, path) for k, (a, path) in enumerate(targets(top))]
+        tgts = [("%d.%d" % (ci, k), a, path) for k, (a, path) in enumerate(targets(top)[:1 if only_top else None])]
         items.append((str(ci), chunks, tgts))
         try:
             ffi = build_ffi(chunks)
@@ -664,6 +690,81 @@ def probes(ctx, n):
             ctx.disagree(case, impl, o, "out-of-class probe: cffi backend vs Model/Layout.lean")
 
 
+# ----------------------------------------------------------------------------- all sflags, through the backend API
+
+SF_STYLE = {"x86": 0x10, "msvc": 0x01, "arm": 0x02}
+
+
+def direct(ctx, n):
+    """The MSVC / ARM / big-endian branches of the loop cannot be reached through ffi.cdef on this platform;
+    `_cffi_backend.complete_struct_or_union(ct, fields, None, -1, -1, sflags, pack)` reaches them.  Random
+    declarations (bit-fields also together with packing) are built with every flag combination and compared with
+    the all-flags model (`layoutf`); there is no compiler oracle for these, so this is correspondence only."""
+    import _cffi_backend as B
+    rng = ctx.rng
+    bname = lambda c: {"float _Complex": "_cffi_float_complex_t", "double _Complex": "_cffi_double_complex_t"}.get(c, c)
+    cprims = {c: (B.sizeof(B.new_primitive_type(bname(c))), B.alignof(B.new_primitive_type(bname(c)))) for c in PRIMS}
+    vp = B.new_pointer_type(B.new_void_type())
+    cptr = (B.sizeof(vp), B.alignof(vp))
+    lines, expect = [], []
+    for i in range(n):
+        g = Gen(rng, "x%d_" % i)
+        g.bits_any_pack = True
+        g.allow_zero = rng.random() < 0.05
+        top = g.declaration()
+        style = rng.choice(["x86", "msvc", "msvc", "arm"])
+        be = rng.random() < 0.4
+        sflags = SF_STYLE[style] | (0x04 if be else 0x40)
+        built = []              # (agg, "ok ..." | "err ...")
+
+        def btype(f):
+            if f.base[0] == "prim":
+                bt = B.new_primitive_type(bname(f.base[1]))
+            elif f.base[0] == "ptr":
+                bt = vp
+            else:
+                bt = build(f.base[1])
+            for d in reversed(f.dims):
+                bt = B.new_array_type(B.new_pointer_type(bt), d)
+            if f.flex:
+                bt = B.new_array_type(B.new_pointer_type(bt), None)
+            return bt
+
+        def build(a):
+            fl = [(f.name, btype(f), -1 if f.bits is None else f.bits) for f in a.fields]
+            bt = (B.new_union_type if a.kind == "union" else B.new_struct_type)("%s %s" % (a.kind, a.tag or "anon"))
+            try:
+                if a.pack == 1:
+                    B.complete_struct_or_union(bt, fl, None, -1, -1, sflags | 0x08)
+                else:
+                    B.complete_struct_or_union(bt, fl, None, -1, -1, sflags, a.pack)
+                obs = " ".join(["ok", str(B.sizeof(bt)), str(B.alignof(bt))] +
+                               ["%d/%s/%s" % (cf.offset, cf.bitshift if cf.bitsize >= 0 else "-",
+                                              cf.bitsize if cf.bitsize >= 0 else "-") for _, cf in bt.fields])
+            except (TypeError, NotImplementedError) as e:
+                built.append((a, "err " + type(e).__name__))
+                raise
+            built.append((a, obs))
+            return bt
+        try:
+            build(top)
+        except (TypeError, NotImplementedError):
+            pass
+        for a, obs in built:
+            toks = tokens(a, cprims, cptr)
+            case = {"direct": True, "sflags": sflags, "decl": reroot(a).to_json(),
+                    "chunks": [[t, p] for t, p, _ in chunks_of(reroot(a))]}
+            ctx.case(("direct", sflags, " ".join(toks)), sample=None)
+            ctx.count("direct:%s:%s:%s" % (style, "be" if be else "le", obs.split()[0] +
+                                          (":" + obs.split()[1] if obs.startswith("err") else "")))
+            lines.append("layoutf %d %d %d %s" % (style == "msvc", style == "arm", be, " ".join(toks)))
+            expect.append((case, obs))
+    out = ctx.driver(lines)
+    for o, (case, obs) in zip(out, expect):
+        if o != obs:
+            ctx.disagree(case, obs, o, "complete_struct_or_union with sflags vs Model/LayoutFlags.lean")
+
+
 # ----------------------------------------------------------------------------- entry points
 
 def _ensure_finding(ctx):
@@ -698,6 +799,87 @@ def directed():
     return out
 
 
+class _Collector(object):
+    """just enough of Ctx for run_batch(oracle_only=True)"""
+    def __init__(self, ctx):
+        self.scratch, self.failures = ctx.scratch, []
+
+    def case(self, *a, **k):
+        pass
+
+    def count(self, *a, **k):
+        pass
+
+    def fail(self, case, detail):
+        self.failures.append({"case": case, "detail": detail})
+
+
+def _valid(a):
+    for i, f in enumerate(a.fields):
+        if f.flex and (i != len(a.fields) - 1 or not any(g.name for g in a.fields[:i])):
+            return False
+        if f.base[0] == "agg" and not _valid(f.base[1]):
+            return False
+    return True
+
+
+def _deletions(d):
+    """every declaration obtained from the JSON form `d` by deleting one member at any depth, or by
+    replacing the whole declaration by one of its nested aggregates"""
+    import copy
+    out = []
+
+    def paths(node, here):
+        for i, f in enumerate(node["fields"]):
+            out.append(here + [i])
+            if f["base"][0] == "agg":
+                paths(f["base"][1], here + [i])
+    paths(d, [])
+    res = []
+    for pth in out:
+        c = copy.deepcopy(d)
+        node = c
+        for i in pth[:-1]:
+            node = node["fields"][i]["base"][1]
+        victim = node["fields"][pth[-1]]
+        if victim["base"][0] == "agg":
+            res.append(copy.deepcopy(victim["base"][1]))     # the nested aggregate alone
+        del node["fields"][pth[-1]]
+        res.append(c)
+    return res
+
+
+def shrink(ctx, failure, rounds=12):
+    """Greedy one-member-at-a-time shrinking of a failing declaration; every round compiles one C program that
+    contains all candidates.  Returns a (possibly smaller) failure of the same kind (known class or not)."""
+    cur = failure
+    known = CLASSES[ZERO_CLASS](failure["case"])
+    try:
+        for r in range(rounds):
+            cands = []
+            for k, d in enumerate(_deletions(cur["case"]["decl"])):
+                a = reroot(Agg.from_json(d), "k%d_" % k)
+                if _valid(a) and CLASSES[ZERO_CLASS]({"zero_size_agg": any(is_zero_size(x) for x in all_aggs(a))}) == known:
+                    cands.append(a)
+            if not cands:
+                break
+            col = _Collector(ctx)
+            run_batch(col, cands[:150], "c01_shrink_%d" % r, oracle_only=True, only_top=True)
+            if not col.failures:
+                break
+            cur = min(col.failures, key=lambda f: len(str(f["case"]["chunks"])))
+    except InfraError as e:
+        common.log("shrinking stopped: %s" % (str(e)[:200],))
+    return cur
+
+
+def _order_failures(ctx):
+    """smallest failing declaration first (it becomes the replay file), shrunk further"""
+    if ctx.failures:
+        ctx.failures.sort(key=lambda f: len(str(f["case"]["chunks"])))
+        ctx.failures[0] = shrink(ctx, ctx.failures[0])
+
+
 def correspond(ctx):
     _ensure_finding(ctx)
     nbatches, per = ctx.n(3, 25), ctx.n(100, 200)
@@ -707,6 +889,8 @@ def correspond(ctx):
             tops.append(Gen(ctx.rng, "c%d_" % i).declaration())
         run_batch(ctx, tops, "c01_batch_%d" % b)
     probes(ctx, ctx.n(40, 400))
+    direct(ctx, ctx.n(120, 2000))
+    _order_failures(ctx)
 
 
 def search(ctx):
@@ -715,18 +899,19 @@ def search(ctx):
         tops = [Gen(ctx.rng, "c%d_" % i).declaration() for i in range(200)]
         run_batch(ctx, tops, "c01_search_%d" % b, oracle_only=True)
         if ctx.failures:
-            return
+            break
+    _order_failures(ctx)
 
 
 def replay(ctx, obj):
     case = obj["case"]
-    if case.get("probe"):
+    if case.get("probe") or case.get("direct"):
         print("out-of-class probe (model correspondence only): %r" % (case,))
         return 0
     top = Agg.from_json(case["decl"])
     before = len(ctx.failures)
     ctx.open_findings = []            # report everything
-    run_batch(ctx, [top], "c01_replay", oracle_only=True)
+    run_batch(ctx, [top], "c01_replay", oracle_only=True, only_top=True)
     for f in ctx.failures[before:]:
         print("%s: %s" % (f["case"]["type"], f["detail"]))
         for t, p in f["case"]["chunks"]:
